@@ -27,6 +27,7 @@ CONSTANTS Procs,      \* process ids 1..P
                       \*       FALSE: additionally a fid being allocated is not named by any other in-flight request
           FixDel,     \* TRUE: clunk/remove look up and lock the fid like every other operation and unbind it
                       \*       under the lock; FALSE (pinned commit): LoadAndDelete first, Lock afterwards (D16)
+          AtomicNewRef, \* TRUE (the code): newRef is one LoadOrStore; FALSE: Load, then Store (check-then-act)
           CreateNils  \* TRUE (the code): when Create has made a directory whose opening fails, the fid's ref gets
                       \*       Ent = nil before it is unlocked, so a request already queued on the lock sees
                       \*       "unknown fid"; FALSE: the line is missing (why-it-matters configuration)
@@ -113,10 +114,13 @@ AfCheck(p) ==
 
 \* newRef: LoadOrStore of a locked placeholder
 NewRef(p) ==
-  /\ pr[p].pc = "newref"
+  /\ pr[p].pc \in {"newref", "newref2"}
   /\ LET o == pr[p].op
          target == IF o.k \in {"clone", "walkfail"} THEN o.nf ELSE o.f IN
-     IF refs[target] # 0
+     IF pr[p].pc = "newref" /\ refs[target] = 0 /\ ~AtomicNewRef
+       THEN \* check-then-act variant: the Load found nothing; the Store follows as a separate step
+            /\ Set(p, "newref2") /\ UNCHANGED <<refs, ref, nref, nent, inFS, hist, overlap, dead, uar>>
+     ELSE IF pr[p].pc = "newref" /\ refs[target] # 0
        THEN /\ ref' = IF pr[p].r # 0 THEN [ref EXCEPT ![pr[p].r].lk = 0] ELSE ref   \* deferred unlock of the source
             /\ Done(p, "dupfid") /\ UNCHANGED <<refs, nref, nent, inFS, overlap, dead, uar>>
        ELSE LET n == nref + 1 IN
@@ -237,6 +241,9 @@ Spec == Init /\ [][Next]_vars /\ WF_vars(\E p \in Procs : Step(p))
 MutualExclusion == ~overlap /\ \A e \in 1..MaxEnt : Cardinality(inFS[e]) <= 1
 \* the file system never sees a call on an entry the session has released or that a create consumed
 NoUseAfterRelease == ~uar
+\* C13 under concurrency: when all operations have returned, every entry the file system handed out and that was
+\* not released is bound to a fid in the table (nothing is orphaned, so clunk / Stop can still release it)
+NoOrphanEntry == AllDone => \A e \in 1..nent : e \notin dead => \E f \in Fids : refs[f] # 0 /\ ref[refs[f]].ent = e
 \* deadlock freedom: some process can move unless all are done (TLC deadlock check is off because of the final stutter)
 NoDeadlock == AllDone \/ ENABLED (\E p \in Procs : Step(p))
 \* after the operations returned no ref reachable from the table is locked
@@ -272,6 +279,11 @@ Linearizable ==
   AllDone => \E s \in Orders :
                /\ \A i, j \in DOMAIN s : Before(s[j], s[i]) => j < i
                /\ Replay(InitBound, s)
+\* without any client discipline (several requests may allocate the same new fid at once): newRef being one
+\* atomic LoadOrStore keeps every property; see FidConc_nodisc.cfg / FidConc_nonatomic.cfg
+AnyAssignments == [Procs -> OpSet]
+OpsSameFid == { Op("attach", 2, 0, ""), Op("attachfail", 2, 0, ""), Op("clone", 0, 2, ""), Op("clone", 1, 2, ""), Op("walkfail", 0, 2, ""),
+                Op("stat", 2, 0, ""), Op("clunk", 2, 0, "") }
 \* ---- operation sets for the configs
 OpsSmall == { Op("stat", 0, 0, ""), Op("clunk", 0, 0, ""), Op("clone", 0, 2, ""), Op("walkfail", 0, 2, ""),
               Op("attach", 2, 0, ""), Op("attachfail", 3, 0, ""), Op("attachaf", 3, 0, ""), Op("stat", 2, 0, ""),
